@@ -200,6 +200,16 @@ inline z_abs_t abstract_of(const DomInfo &d, Built &B, const std::vector<LinCst>
   return a;
 }
 
+// documented refusals: the case is discarded (counted), not judged
+inline std::string refusal_kind(const std::string &msg) {
+  if (msg.find("not implemented") != std::string::npos) return "not-implemented";
+  if (msg.find("Integer overflow during") != std::string::npos) return "safe_i64-overflow";
+  if (msg.find("rename assumes that") != std::string::npos) return "rename-precondition";
+  if (msg.find("TODO") != std::string::npos) return "todo";
+  return "";
+}
+inline bool is_refusal(const std::string &msg) { return !refusal_kind(msg).empty(); }
+
 // statement fingerprint component
 inline std::string stmt_tag(const Stmt &s) {
   switch (s.kind) {
@@ -239,5 +249,7 @@ inline std::string stmt_tag(const Stmt &s) {
 
 // engines (one translation unit each)
 void run_fwd_case(Ctx &ctx, int64_t kase, Rng &r, const DomInfo &d);
+void run_pool_case(Ctx &ctx, int64_t kase, Rng &r, const DomInfo &d);
+void run_chain_case(Ctx &ctx, int64_t kase, Rng &r, const DomInfo &d);
 
 } // namespace vf
